@@ -27,6 +27,25 @@ pub struct QEv {
 }
 
 static mut QHIST: Vec<QEv> = Vec::new();
+/// elements whose destructor was run by the queue itself (the harness defuses every element it
+/// is handed before dropping it, and the queue object is never dropped)
+static mut QLIBDROPS: Vec<(u64, u64)> = Vec::new();
+
+/// Queue payload with a destructor, as the collector's `SealedBag` has one.
+pub struct QItem(u64);
+impl QItem {
+    fn take(mut self) -> u64 {
+        std::mem::replace(&mut self.0, u64::MAX)
+    }
+}
+impl Drop for QItem {
+    #[allow(static_mut_refs)]
+    fn drop(&mut self) {
+        if self.0 != u64::MAX {
+            unsafe { QLIBDROPS.push((self.0, sim().seq)) };
+        }
+    }
+}
 static mut SOFT: Vec<(String, String)> = Vec::new();
 
 pub fn pred(id: u64, v: u64) -> bool {
@@ -119,7 +138,7 @@ impl Monitor for QMon {
 }
 
 #[allow(static_mut_refs)]
-fn body(tid: usize, q: &'static VQueue<u64>, prog: &ThreadProg) {
+fn body(tid: usize, q: &'static VQueue<QItem>, prog: &ThreadProg) {
     let mut guard: Option<circ::Guard> = None;
     for (i, o) in prog.ops.iter().enumerate() {
         sched::set_op(i as u32);
@@ -148,21 +167,21 @@ fn body(tid: usize, q: &'static VQueue<u64>, prog: &ThreadProg) {
                 let inv = sim().seq;
                 let mut ev = QEv { tid, kind: o.k, arg: o.a as u64, inv, ret: 0, out: None, last_pred: None, pred_evals: 0 };
                 match o.k {
-                    K::QPush => q.push(o.a as u64, g),
-                    K::QPop => ev.out = q.try_pop(g),
+                    K::QPush => q.push(QItem(o.a as u64), g),
+                    K::QPop => ev.out = q.try_pop(g).map(QItem::take),
                     _ => {
                         let id = o.a as u64;
                         let last = std::cell::Cell::new(None);
                         let n = std::cell::Cell::new(0u32);
                         ev.out = q.try_pop_if(
                             |v| {
-                                let r = pred(id, *v);
-                                last.set(Some((*v, r)));
+                                let r = pred(id, v.0);
+                                last.set(Some((v.0, r)));
                                 n.set(n.get() + 1);
                                 r
                             },
                             g,
-                        );
+                        ).map(QItem::take);
                         ev.last_pred = last.get();
                         ev.pred_evals = n.get();
                     }
@@ -260,7 +279,7 @@ fn soft(sig: &str, det: String) {
 #[allow(static_mut_refs)]
 pub fn run(desc: &RunDesc) -> ! {
     crate::runner::init_library(&desc.cfg);
-    let q: &'static VQueue<u64> = Box::leak(Box::new(VQueue::new()));
+    let q: &'static VQueue<QItem> = Box::leak(Box::new(VQueue::new()));
     let progs: Arc<Vec<ThreadProg>> = Arc::new(desc.threads.clone());
     let mut specs = Vec::new();
     for (i, t) in desc.threads.iter().enumerate() {
@@ -280,7 +299,7 @@ pub fn run(desc: &RunDesc) -> ! {
                 k += 1;
                 let g = circ::cs();
                 let inv = sim().seq;
-                let out = q.try_pop(&g);
+                let out = q.try_pop(&g).map(QItem::take);
                 unsafe { QHIST.push(QEv { tid, kind: K::QPop, arg: 0, inv, ret: sim().seq, out, last_pred: None, pred_evals: 0 }) };
                 drop(g);
                 if out.is_none() {
@@ -317,6 +336,9 @@ pub fn run(desc: &RunDesc) -> ! {
                 }
             }
         }
+    }
+    for (x, at) in unsafe { QLIBDROPS.iter() } {
+        soft("element-destroyed-by-queue", format!("the queue ran the destructor of element p{}.{} itself (at seq {}); elements are owned by the queue until a pop hands them to its caller", x >> 16, x & 0xFFFF, at));
     }
     for (x, c) in &popped {
         if *c > 1 {
